@@ -6,7 +6,7 @@
    a total_preorder hypothesis; C15_raw_default_*: the same for Pool.rk_default on raw values under Forall inUd;
    C15_pool_* etc.: the class functions of the pool machine produce a new object, leave the operands (and every
    other object) unchanged, and later changes to one side do not reach the other. *)
-From Verif Require Import Base Sorter Value Seq Coll SetProofs CollateRank CollateUse Pool PoolFrame SetProofs2 SetTransfer SetPool.
+From Verif Require Import Base Sorter Value Seq Coll CollP SetProofs CollateRank CollateUse Pool PoolFrame SetProofs2 SetTransfer SetPool.
 Local Open Scope nat_scope.
 
 Theorem C15_and_is_intersection :
@@ -288,6 +288,51 @@ Example C15_pool_example :
 Proof. vm_compute; reflexivity. Qed.
 
 
+(* Round 3 (generator modes): Sets whose collator can PANIC (Collator.MakeWithMaximum(m) over values nested deeper than
+   m) and class functions called with a nil operand.  The pool machine runs the same algorithms with a ranking that
+   may panic (CollP.v); they are the verified functions whenever the rankings do not panic, and a call that panics —
+   after any amount of work — changes nothing, so that the next call depends on its operands alone. *)
+Theorem C15_depth_limited_collators_same_results_unless_they_panic :
+  forall (zero : val) (rank1 rank2 : val -> val -> comparison) (rk1 rk2 : val -> val -> option comparison),
+         (forall a b : val, rk1 a b = Some (rank1 a b)) ->
+         (forall a b : val, rk2 a b = Some (rank2 a b)) ->
+         forall a b : list val,
+         set_and_p zero rk1 rk2 a b = set_and zero rank1 rank2 a b /\
+         set_or_p zero rk1 a b = set_or zero rank1 a b /\
+         set_sans_p zero rk1 a b = set_sans zero rank1 a b /\
+         set_xor_p zero rk1 rk2 a b = set_xor zero rank1 rank2 a b.
+Proof. exact limited_collator_agrees. Qed.
+
+Theorem C15_pool_results_depth_limited_first_operand :
+  forall (zero : val) (p : pool) (a b m : nat) (x : list val) (r2 : val -> val -> option comparison) (y : list val),
+         get p a = OSetL m x ->
+         set_operand (get p b) = Some (r2, y) ->
+         step zero p (SAnd a b) = new_like p (OSetL m x) (set_and_p zero (rk_lim m) r2 x y) /\
+         step zero p (SOr a b) = new_like p (OSetL m x) (set_or_p zero (rk_lim m) x y) /\
+         step zero p (SSans a b) = new_like p (OSetL m x) (set_sans_p zero (rk_lim m) x y) /\
+         step zero p (SXor a b) = new_like p (OSetL m x) (set_xor_p zero (rk_lim m) r2 x y).
+Proof. exact pool_set_algebra_limited. Qed.
+
+Theorem C15_a_class_function_that_panics_changes_nothing :
+  forall (zero : val) (p : pool) (o : op) (p' : pool),
+         is_class_call o = true -> step zero p o = (p', RPanic) -> p' = p.
+Proof. exact failed_class_call_changes_nothing. Qed.
+
+(* non-vacuity: {[], [[2]]} (default collator) and {[], [[1]]} (maximum depth 1).  And finds [] in the second Set, then
+   panics on [[2]] against [[1]] (two levels); Or/Sans/Xor copy the first operand with the first operand's collator:
+   with the ordinary Set first they succeed or panic in the second operand's search; nil operands panic; every failed
+   call leaves the pool as it was and the same function on ordinary operands then gives the ordinary result *)
+Example C15_depth_limited_example :
+  step VNilSlice ex_lim_pool (SAnd 0 1) = (ex_lim_pool, RPanic) /\
+  step VNilSlice ex_lim_pool (SAnd 1 0) = (ex_lim_pool ++ [OSetL 1 [lv_e]], RNew) /\
+  step VNilSlice ex_lim_pool (SOr 1 0) = (ex_lim_pool, RPanic) /\
+  step VNilSlice ex_lim_pool (SOr 0 1) = (ex_lim_pool ++ [OSet 0 [lv_e; lv_d1; lv_d2]], RNew) /\
+  step VNilSlice ex_lim_pool (NilCall FOr 0 false) = (ex_lim_pool, RPanic) /\
+  step VNilSlice ex_lim_pool (SAnd 0 0) = (ex_lim_pool ++ [OSet 0 [lv_e; lv_d2]], RNew) /\
+  is_class_call (SAnd 0 1) = true.
+Proof. vm_compute. repeat split; reflexivity. Qed.
+
+
 Print Assumptions C15_and_is_intersection.
 Print Assumptions C15_or_is_union.
 Print Assumptions C15_sans_is_difference.
@@ -304,3 +349,6 @@ Print Assumptions C15_pool_results.
 Print Assumptions C15_operands_and_everything_else_unchanged.
 Print Assumptions C15_later_changes_to_an_operand_do_not_reach_the_result.
 Print Assumptions C15_later_changes_to_the_result_do_not_reach_an_operand.
+Print Assumptions C15_depth_limited_collators_same_results_unless_they_panic.
+Print Assumptions C15_pool_results_depth_limited_first_operand.
+Print Assumptions C15_a_class_function_that_panics_changes_nothing.
